@@ -1020,6 +1020,10 @@ pub fn ecall_maze_family(rng: &mut Rng) -> Shape {
     p.push(Ins::li(9, rng.range(1, 9) as i32));
     p.push(Ins::li(A7, *rng.pick(&nums)));
     p.push(Ins::li(5, *rng.pick(&nums)));
+    if rng.chance(0.5) {
+        p.push(Ins::li(11, *rng.pick(&nums)));
+        p.push(Ins::li(12, *rng.pick(&nums)));
+    }
     // forward branches into the maze
     let mut targets: Vec<usize> = (1..n).collect();
     rng.shuffle(&mut targets);
@@ -1032,9 +1036,11 @@ pub fn ecall_maze_family(rng: &mut Rng) -> Shape {
         }
         for _ in 0..rng.below(3) {
             match rng.below(6) {
-                0 => p.push(Ins::li(5, *rng.pick(&nums))),
+                // (the number also travels in a0 / a1 / a2: whether it survives an ecall depends on which
+                // registers that ecall is known to overwrite)
+                0 => p.push(Ins::li(*rng.pick(&[5u8, 5, 10, 11, 12]), *rng.pick(&nums))),
                 1 => p.push(Ins::li(A7, *rng.pick(&nums))),
-                2 => p.push(Ins::mv(A7, 5)),
+                2 => p.push(Ins::mv(A7, *rng.pick(&[5u8, 5, 10, 11, 12]))),
                 3 => p.push(Ins::mv(A0, 9)),
                 4 => p.push(Ins::addi(0, 0, 0)),
                 _ => {
